@@ -2,6 +2,7 @@ import NucsProofs.Engine.ShavingTerm
 import NucsProofs.Engine.Termination
 import NucsProofs.Engine.DfsTerm
 import NucsProofs.Propagators.PortAlldiff
+import NucsProofs.Propagators.PortGcc
 /-!
   C04 — propagation and search terminate on every finite problem.
 
@@ -24,8 +25,8 @@ import NucsProofs.Propagators.PortAlldiff
   no_sub_cycle (restart loop) and trivially for the closed-form algorithms; for the ported
   alldifferent pointer chasing it is `C04_port_alldifferent` (the raw port never exhausts its loop
   budgets on non-empty domains; with an empty domain the code does loop: `alldifferent_empty_domain_fuel`);
-  for the ported gcc it is validated by correspondence (gcc with a zero capacity does spin: known
-  finding K1).  Search termination is `C04_search` (and, for the whole enumeration / optimisation with explicit fuels,
+  for the ported gcc it is `C04_port_gcc` (upper capacities ≥ 1; gcc with a zero capacity does spin:
+  `gcc_zero_capacity_fuel`, known finding K1).  Search termination is `C04_search` (and, for the whole enumeration / optimisation with explicit fuels,
   `C02_enumeration`, `C03_optimum`).  With shaving: `C04_shavingPass` (the pass returns after at most 2·W + 2·n + 1 probes; the fuel the model grants the loop is sufficient) and `Dfs.consTerm_shaving`.
 -/
 namespace Nucs
